@@ -310,8 +310,48 @@ func (tp *ethTxPool) Update(height int64, txs []types.Tx) {
 	}
 	tp.refreshBroadcastList(txsMap)
 	tp.refreshAdminOP(txsMap)
+	tp.removeIncluded(txs)
 
 	return
+}
+
+// removeIncluded drops the transactions of a committed block from the queues.  The executed ones would be
+// dropped by demoteUnexecutables anyway once the nonce has advanced; the ones that FAILED at execution
+// (the nonce does not advance) would otherwise stay at the head of their account's pending queue and be
+// offered again for every following block.
+func (tp *ethTxPool) removeIncluded(txs []types.Tx) {
+	for _, raw := range txs {
+		hash := common.BytesToHash(raw.Hash())
+		if _, exist := tp.all[hash]; !exist {
+			continue
+		}
+		delete(tp.all, hash)
+		tx := &etypes.Transaction{}
+		if err := rlp.DecodeBytes(raw, tx); err != nil {
+			continue
+		}
+		from, err := etypes.Sender(tp.app.Signer, tx)
+		if err != nil {
+			continue
+		}
+		if accountTxs := tp.pending[from]; accountTxs != nil {
+			if queued := accountTxs.Get(tx.Nonce()); queued != nil && queued.Hash() == hash {
+				accountTxs.Remove(tx.Nonce())
+				if accountTxs.Len() == 0 {
+					delete(tp.pending, from)
+				}
+			}
+		}
+		if accountTxs := tp.waiting[from]; accountTxs != nil {
+			if queued := accountTxs.Get(tx.Nonce()); queued != nil && queued.Hash() == hash {
+				accountTxs.Remove(tx.Nonce())
+				if accountTxs.Len() == 0 {
+					delete(tp.waiting, from)
+					delete(tp.waitingBeats, from)
+				}
+			}
+		}
+	}
 }
 
 // update pool txs after evm state updated
